@@ -38,18 +38,18 @@ type DirCase struct {
 
 // plans: what the two server sessions (A, B) do with a swamp
 var plans = []string{
-	"keep",         // written in A
-	"keep-append",  // written in A, appended in B
-	"inline",       // written, flushed, overwritten, flushed in A: the write path compacts
+	"keep",          // written in A
+	"keep-append",   // written in A, appended in B
+	"inline",        // written, flushed, overwritten, flushed in A: the write path compacts
 	"rpc-compact-a", // written and compacted through the CompactSwamp RPC in A
 	"rpc-compact-b", // written in A, compacted through the RPC in B
-	"destroy-a",    // written, flushed and destroyed in A
-	"destroy-b",    // written in A, destroyed in B
-	"delete-all-a", // written and flushed in A, then every key deleted (the empty swamp removes itself)
+	"destroy-a",     // written, flushed and destroyed in A
+	"destroy-b",     // written in A, destroyed in B
+	"delete-all-a",  // written and flushed in A, then every key deleted (the empty swamp removes itself)
 	"delete-all-b",
-	"recreate",     // written and destroyed in A, written again in B
-	"late",         // created only in B
-	"untouched",    // (planted files) never opened by the server
+	"recreate",  // written and destroyed in A, written again in B
+	"late",      // created only in B
+	"untouched", // (planted files) never opened by the server
 }
 
 func genDirCase(c *rig.Check, idx int) DirCase {
@@ -76,6 +76,13 @@ func genDirCase(c *rig.Check, idx int) DirCase {
 				continue
 			}
 			break
+		}
+		// every directory has swamps that vanish / come back between two scans
+		if forced := []string{"destroy-b", "delete-all-b", "recreate"}; i < len(forced) {
+			ds.Origin, ds.Plan = "engine", forced[i]
+			if ds.Name.Len > MaxNameLen {
+				ds.Name.Len = 30 + i
+			}
 		}
 		dc.Swamps = append(dc.Swamps, ds)
 	}
@@ -107,6 +114,8 @@ type dirRun struct {
 	rejected map[int]bool
 	// set per scan: a file written for an over-limit name is on disk
 	overLimitOnDisk bool
+	ex              *explorer.Explorer // the explorer object reused for every scan of the session
+	scans           int
 }
 
 func (d *dirRun) hyd(i int) string {
@@ -216,9 +225,36 @@ func (d *dirRun) scan(stage string) {
 		}
 	}
 	d.c.Count("hyd_files_scanned", int64(hydFiles))
-	ex := explorer.New(d.data)
+	// a fresh explorer (hydraidectl explore) and the one explorer object that lives through the
+	// whole session and is rescanned after every change of the directory (the server keeps one)
+	if d.ex == nil {
+		d.ex = explorer.New(d.data)
+	}
+	d.scans++
+	for _, ec := range []struct {
+		ex  *explorer.Explorer
+		who string
+	}{{explorer.New(d.data), "fresh"}, {d.ex, "reused"}} {
+		d.compareExplorer(ec.ex, ec.who, stage, want, hydFiles)
+	}
+	d.c.Count("swamps_on_disk_compared", int64(len(want)))
+	// the fast name lookup on every file of the directory
+	for _, i := range want {
+		got, err := v2.ReadSwampName(d.hyd(i))
+		if err != nil || got != d.names[i] {
+			e := "differs"
+			if err != nil {
+				e = "error"
+			}
+			d.add(fmt.Sprintf("name:dir-%s:%s:ReadSwampName:%s", d.dc.Swamps[i].Origin, stage, e), fmt.Sprintf("ReadSwampName(%s)=%s err=%v, written by %s", d.hyd(i), clip(got), err, clip(d.names[i])))
+		}
+	}
+}
+
+// compareExplorer scans with ex and compares every listing API with the files on disk.
+func (d *dirRun) compareExplorer(ex *explorer.Explorer, who, stage string, want map[listed]int, hydFiles int) {
 	if err := ex.Scan(context.Background()); err != nil {
-		d.add("explorer:"+stage+":scan-error", "Scan failed: "+err.Error())
+		d.add("explorer:"+who+":"+stage+":scan-error", "Scan failed: "+err.Error())
 		return
 	}
 	d.c.Count("explorer_scans", 1)
@@ -227,7 +263,7 @@ func (d *dirRun) scan(stage string) {
 		for l, i := range want {
 			if !got[l] {
 				missing++
-				d.add(fmt.Sprintf("explorer:%s:%s:missing:%s", stage, api, d.dc.Swamps[i].Origin), fmt.Sprintf("%s does not list %s although its file is on disk (%s)", api, l, d.hyd(i)))
+				d.add(fmt.Sprintf("explorer:%s:%s:%s:missing:%s", who, stage, api, d.dc.Swamps[i].Origin), fmt.Sprintf("%s does not list %s although its file is on disk (%s)", api, l, d.hyd(i)))
 			}
 		}
 		extra := 0
@@ -241,7 +277,7 @@ func (d *dirRun) scan(stage string) {
 		if extra > missing {
 			for l := range got {
 				if _, ok := want[l]; !ok {
-					d.add(fmt.Sprintf("explorer:%s:%s:extra", stage, api), fmt.Sprintf("%s lists %s, which no file on disk belongs to", api, l))
+					d.add(fmt.Sprintf("explorer:%s:%s:%s:extra", who, stage, api), fmt.Sprintf("%s lists %s, which no file on disk belongs to", api, l))
 				}
 			}
 		}
@@ -284,22 +320,36 @@ func (d *dirRun) scan(stage string) {
 	compare("ListAllSwamps", all)
 	compare("GetSwampDetail", detail)
 	if sumSwampCount != int64(len(want)) {
-		d.add(fmt.Sprintf("explorer:%s:ListSanctuaries:swamp-count", stage), fmt.Sprintf("sanctuary SwampCount sums to %d, %d swamp files on disk", sumSwampCount, len(want)))
+		d.add(fmt.Sprintf("explorer:%s:%s:ListSanctuaries:swamp-count", who, stage), fmt.Sprintf("sanctuary SwampCount sums to %d, %d swamp files on disk", sumSwampCount, len(want)))
 	}
 	st := ex.GetScanStatus()
 	if st.TotalFiles != int64(hydFiles) || st.ErrorCount != 0 {
-		d.add(fmt.Sprintf("explorer:%s:scan-status", stage), fmt.Sprintf("scan status: total=%d scanned=%d errors=%d, %d .hyd files on disk", st.TotalFiles, st.ScannedFiles, st.ErrorCount, hydFiles))
+		d.add(fmt.Sprintf("explorer:%s:%s:scan-status", who, stage), fmt.Sprintf("scan status: total=%d scanned=%d errors=%d, %d .hyd files on disk", st.TotalFiles, st.ScannedFiles, st.ErrorCount, hydFiles))
 	}
-	d.c.Count("swamps_on_disk_compared", int64(len(want)))
-	// the fast name lookup on every file of the directory
-	for _, i := range want {
-		got, err := v2.ReadSwampName(d.hyd(i))
-		if err != nil || got != d.names[i] {
-			e := "differs"
-			if err != nil {
-				e = "error"
-			}
-			d.add(fmt.Sprintf("name:dir-%s:%s:ReadSwampName:%s", d.dc.Swamps[i].Origin, stage, e), fmt.Sprintf("ReadSwampName(%s)=%s err=%v, written by %s", d.hyd(i), clip(got), err, clip(d.names[i])))
+	// totals at realm and sanctuary level, and sizes
+	var realmSum, sizeFiles int64
+	for _, s := range ex.ListSanctuaries() {
+		for _, rl := range ex.ListRealms(s.Name) {
+			realmSum += rl.SwampCount
+		}
+		if si, err := ex.GetSize(s.Name, "", ""); err == nil && si != nil {
+			sizeFiles += si.FileCount
+		}
+	}
+	if realmSum != int64(len(want)) {
+		d.add(fmt.Sprintf("explorer:%s:%s:ListRealms:swamp-count", who, stage), fmt.Sprintf("realm SwampCount sums to %d, %d swamp files on disk", realmSum, len(want)))
+	}
+	if sizeFiles != int64(len(want)) {
+		d.add(fmt.Sprintf("explorer:%s:%s:GetSize:file-count", who, stage), fmt.Sprintf("GetSize FileCount sums to %d, %d swamp files on disk", sizeFiles, len(want)))
+	}
+	// a swamp of the case whose file is not on disk must not be answered for
+	for i, n := range d.names {
+		parts := strings.SplitN(n, "/", 3)
+		if _, on := want[listed{parts[0], parts[1], parts[2], fmt.Sprint(rig.Island(n))}]; on || len(n) > MaxNameLen {
+			continue
+		}
+		if det, err := ex.GetSwampDetail(parts[0], parts[1], parts[2]); err == nil && det != nil {
+			d.add(fmt.Sprintf("explorer:%s:%s:GetSwampDetail:answers-for-absent-swamp:%s", who, stage, d.dc.Swamps[i].Plan), fmt.Sprintf("GetSwampDetail returns %s (file %s) although no such file is on disk", clip(n), det.FilePath))
 		}
 	}
 }
